@@ -11,7 +11,7 @@ Section Trace.
 Variable bname : bytes.
 Variable store : ident -> lookup.
 Variable async_store : bool.
-Notation Good := (Good store async_store).
+Notation Good := (Good (srow store) async_store).
 
 (* changes only read-side bookkeeping *)
 Definition inertf (f : conn -> conn) : Prop := forall c, core (f c) = core c /\ out (f c) = out c.
@@ -59,7 +59,7 @@ Proof.
   - apply unsub_good; assumption.
   - apply lostp_good; assumption.
   - apply auth_set_good; try assumption. apply regauge_good. exact G.
-  - destruct (publish_good store async_store p c d s i r G H H0) as (s'' & E & G'). congruence.
+  - destruct (publish_good (srow store) async_store p c d s i r G H H0) as (s'' & E & G'). congruence.
   - pose proof (do_connect_good bname store async_store p n s G) as X. exact X.
   - apply abort_good. exact G.
 Qed.
@@ -114,7 +114,7 @@ Proof.
   apply bytes_eqb_eq in E1. subst i.
   destruct (ak_some_link store async_store s p me G Hak) as (r & Hla & Hp & _).
   apply memc_In in E2. rewrite Hp in E2.
-  destruct (publish_good store async_store p c d s me r G Hla E2) as (s' & Es & Gs). rewrite Es. cbn.
+  destruct (publish_good (srow store) async_store p c d s me r G Hla E2) as (s' & Es & Gs). rewrite Es. cbn.
   apply psteps_one. eapply ps_publish; eassumption.
 Qed.
 Lemma on_subscribe_tr p c s : Good s -> ak (conns s p) <> None -> psteps p s (st (on_subscribe p c s)).
